@@ -190,16 +190,16 @@ func TestC13(t *testing.T) {
 		}
 
 		// every popped checkpoint: serialize, new process, resume, read the remainder
-		for _, pc := range popped {
+		checkResume := func(pc poppedCk) bool {
 			var gb bytes.Buffer
 			if err := gob.NewEncoder(&gb).Encode(pc.c); err != nil {
 				Violation(rt, "C13/checkpoint-not-serializable", "gob encode of checkpoint popped at message %d: %v", pc.pos, err)
-				return
+				return false
 			}
 			c2 := &wire.MessageReaderCheckpoint{}
 			if err := gob.NewDecoder(&gb).Decode(c2); err != nil {
 				Violation(rt, "C13/checkpoint-not-deserializable", "gob decode of checkpoint popped at message %d: %v", pc.pos, err)
-				return
+				return false
 			}
 			Ev.Fault("crash_restart_at_checkpoint", 1)
 			if c2.SourceCheckpoint != nil {
@@ -208,7 +208,7 @@ func TestC13(t *testing.T) {
 			rc2, err := openStream(stream, slice2)
 			if err != nil {
 				Violation(rt, "C13/reopen-failed", "%v", err)
-				return
+				return false
 			}
 			var rerr error
 			p := Recover(func() { rerr = rc2.Resume(c2) })
@@ -216,33 +216,97 @@ func TestC13(t *testing.T) {
 				// checkpoint taken after the last message: there is no next unread message; reporting
 				// end-of-stream from Resume instead of from the next read returns nothing wrong
 				Ev.Probe("end_of_stream_checkpoint_resume_reports_eof")
-				continue
+				return true
 			}
 			if p != "" || rerr != nil {
 				Violation(rt, "C13/resume-failed", "Resume from checkpoint popped before message %d (offset %d): %v %s (%s)\n%v", pc.pos, c2.Offset, rerr, p, CompString(comp), sample())
-				return
+				return false
 			}
 			for i := pc.pos; i <= len(msgs); i++ {
 				var rerr error
 				p := Recover(func() { rerr = rc2.ReadMessage(got) })
 				if p != "" {
 					Violation(rt, "C13/read-panic", "after resume, ReadMessage %d panicked: %s", i, p)
-					return
+					return false
 				}
 				if i == len(msgs) {
 					if errors.Cause(rerr) != io.EOF {
 						Violation(rt, "C13/resume-no-eof", "after resume at %d: end of stream expected, got %v", pc.pos, rerr)
-						return
+						return false
 					}
 					break
 				}
 				if rerr != nil {
 					Violation(rt, "C13/resume-read-error", "resumed before message %d (checkpoint offset %d), reading message %d: %v (%s)\n%v", pc.pos, c2.Offset, i, rerr, CompString(comp), sample())
-					return
+					return false
 				}
 				if !proto.Equal(got, msgs[i]) {
 					Violation(rt, "C13/resume-wrong-message", "resumed before message %d (checkpoint offset %d): message %d differs (payload %d vs %d bytes) (%s)\n%v", pc.pos, c2.Offset, i, len(got.Data), len(msgs[i].Data), CompString(comp), sample())
+					return false
+				}
+			}
+			return true
+		}
+		for _, pc := range popped {
+			if !checkResume(pc) {
+				return
+			}
+		}
+		// the reader object itself is resumed (Patcher.Resume on an existing patcher does this): saves
+		// may have been requested and delivered but not collected when that happens, and whatever the
+		// reader pops afterwards must still resume exactly
+		if len(msgs) >= 2 && rapid.IntRange(0, 2).Draw(rt, "reuse") == 0 {
+			rc3, err := openStream(stream, slice1)
+			if err != nil {
+				Violation(rt, "C13/open-failed", "opening the stream (%s): %v", CompString(comp), err)
+				return
+			}
+			stopAt := rapid.IntRange(1, len(msgs)).Draw(rt, "reusestop")
+			lazy := rapid.Uint64().Draw(rt, "lazypops")
+			var early []poppedCk
+			for i := 0; i < stopAt; i++ {
+				rc3.WantSave()
+				if lazy>>(uint(i)%64)&1 == 1 {
+					if c := rc3.PopCheckpoint(); c != nil {
+						early = append(early, poppedCk{c, i})
+					}
+				}
+				if rerr := rc3.ReadMessage(got); rerr != nil || !proto.Equal(got, msgs[i]) {
+					Violation(rt, "C13/read-error", "lazy-pop pass, message %d: %v (%s)", i, rerr, CompString(comp))
 					return
+				}
+			}
+			if len(early) > 0 {
+				back := early[rapid.IntRange(0, len(early)-1).Draw(rt, "reuseback")]
+				var gb bytes.Buffer
+				c2 := &wire.MessageReaderCheckpoint{}
+				if err := gob.NewEncoder(&gb).Encode(back.c); err != nil || gob.NewDecoder(&gb).Decode(c2) != nil {
+					Violation(rt, "C13/checkpoint-not-serializable", "gob round trip of checkpoint popped at message %d: %v", back.pos, err)
+					return
+				}
+				var rerr error
+				if p := Recover(func() { rerr = rc3.Resume(c2) }); p != "" || rerr != nil {
+					Violation(rt, "C13/resume-failed", "Resume on the same reader (read up to message %d) from the checkpoint popped before message %d: %v %s (%s)", stopAt, back.pos, rerr, p, CompString(comp))
+					return
+				}
+				Ev.Probe("same_reader_resumed_from_earlier_checkpoint")
+				var later []poppedCk
+				for i := back.pos; i < len(msgs); i++ {
+					rc3.WantSave()
+					if c := rc3.PopCheckpoint(); c != nil {
+						later = append(later, poppedCk{c, i})
+					}
+					var rerr error
+					p := Recover(func() { rerr = rc3.ReadMessage(got) })
+					if p != "" || rerr != nil || !proto.Equal(got, msgs[i]) {
+						Violation(rt, "C13/resume-wrong-message", "same reader resumed before message %d: message %d wrong or failed: %v %s (%s)", back.pos, i, rerr, p, CompString(comp))
+						return
+					}
+				}
+				for _, pc := range later {
+					if !checkResume(pc) {
+						return
+					}
 				}
 			}
 		}
